@@ -910,7 +910,7 @@ func init() {
 		Assumptions: []string{"missing variables render as text/template renders them", "exec probe working_dir is not in the statement's field list and not judged"},
 		Gen: func(seed int64, tier string) []fw.Case {
 			var cs []fw.Case
-			for i := 0; i < tierN(tier, 3000, 40000); i++ {
+			for i := 0; i < tierN(tier, 12000, 150000); i++ {
 				s := fw.SubSeed(seed, i)
 				cs = append(cs, fw.MkCase("C16", "load", s, genLdSpec(fw.Rand(s))))
 			}
@@ -925,7 +925,7 @@ func init() {
 		Assumptions: []string{"only KEY=VALUE entries and non-zero override values are generated (mergo cannot express 'set to zero', the docs do not promise it)", "environment compared as key->value (order is not promised)"},
 		Gen: func(seed int64, tier string) []fw.Case {
 			var cs []fw.Case
-			for i := 0; i < tierN(tier, 4000, 60000); i++ {
+			for i := 0; i < tierN(tier, 16000, 200000); i++ {
 				s := fw.SubSeed(seed, i)
 				cs = append(cs, fw.MkCase("C15", map[bool]string{false: "merge", true: "extends"}[i%2 == 1], s, genMgSpec(fw.Rand(s), i%2 == 1)))
 			}
